@@ -85,5 +85,86 @@ fn main() {
         println!("   size histogram (bytes/8 -> live): {:?}", unsafe { ledger::SIZE_HIST });
         report(b <= a + 64, "F-C17-4", format!("live allocations after 200 cycles: {}, after 2200 cycles: {} (an earlier drop of a non-last handle of the stream)", a, b));
     }
+    // F-C14-1: space freed through the DIRECT try_recv of a futures receiver must wake a parked sender
+    {
+        use futures::executor::{self, Notify};
+        use futures::{Async, AsyncSink, Sink};
+        use std::sync::atomic::{AtomicUsize, Ordering};
+        use std::sync::Arc;
+        struct Flag(AtomicUsize);
+        impl Notify for Flag {
+            fn notify(&self, _id: usize) {
+                self.0.fetch_add(1, Ordering::SeqCst);
+            }
+        }
+        let flag = Arc::new(Flag(AtomicUsize::new(0)));
+        let (tx, rx) = mpmc_fut_queue::<u32>(1);
+        assert!(tx.try_send(1).is_ok());
+        // a sink task that finds the queue full parks itself
+        let mut task = executor::spawn(futures::future::poll_fn(|| -> futures::Poll<bool, ()> {
+            let mut s = &tx;
+            match s.start_send(2) {
+                Ok(AsyncSink::Ready) => Ok(Async::Ready(true)),
+                Ok(AsyncSink::NotReady(_)) => Ok(Async::NotReady),
+                Err(_) => Ok(Async::Ready(false)),
+            }
+        }));
+        let first = task.poll_future_notify(&flag, 0);
+        assert!(matches!(first, Ok(Async::NotReady)));
+        let got = rx.try_recv(); // direct method frees the slot
+        let notified = flag.0.load(Ordering::SeqCst);
+        report(got == Ok(1) && notified > 0, "F-C14-1", format!("direct try_recv on a futures receiver returned {:?}; parked sender notified {} time(s)", got, notified));
+    }
+
+    // F-C15-1: the direct blocking recv() of a futures receiver on an empty queue must block, not panic
+    {
+        let (tx, rx) = mpmc_fut_queue::<u32>(4);
+        let h = std::thread::spawn(move || {
+            std::panic::catch_unwind(std::panic::AssertUnwindSafe(|| rx.recv())).map_err(|_| ())
+        });
+        std::thread::sleep(std::time::Duration::from_millis(100));
+        let _ = tx.try_send(5);
+        let r = h.join().unwrap();
+        report(matches!(r, Ok(Ok(5))), "F-C15-1", format!("MPMCFutReceiver::recv() on an empty queue with a live sender: {:?}", r.map_err(|_| "PANICKED")));
+    }
+
+    // F-C15-2: poll on a fresh, never-wrapped, empty queue must return NotReady (not spin inside the call)
+    {
+        use futures::executor::{self, Notify};
+        use futures::Stream;
+        use std::sync::mpsc::channel;
+        struct Nop;
+        impl Notify for Nop {
+            fn notify(&self, _id: usize) {}
+        }
+        let (tx, rx) = mpmc_fut_queue::<u32>(4);
+        let (done_tx, done_rx) = channel();
+        std::thread::spawn(move || {
+            let mut task = executor::spawn(rx);
+            let r = task.poll_stream_notify(&std::sync::Arc::new(Nop), 0);
+            let _ = done_tx.send(format!("{:?}", r));
+        });
+        let r = done_rx.recv_timeout(std::time::Duration::from_secs(3));
+        let ok = matches!(&r, Ok(s) if s.contains("NotReady"));
+        report(ok, "F-C15-2", format!("poll on a fresh empty futures queue: {}", match &r { Ok(s) => s.clone(), Err(_) => "did not return within 3 s (busy-waits inside the call)".to_string() }));
+        // release the spinning thread so that the process can exit cleanly
+        let _ = tx.try_send(1);
+        std::thread::sleep(std::time::Duration::from_millis(50));
+    }
+
+    // F-C08-2: YieldingWait with a zero yield-spin count must still notice the value
+    {
+        use std::sync::mpsc::channel;
+        let (tx, rx) = broadcast_queue_with::<u32, wait::YieldingWait>(4, wait::YieldingWait::with_spins(0, 0));
+        let (done_tx, done_rx) = channel();
+        std::thread::spawn(move || {
+            let r = rx.recv();
+            let _ = done_tx.send(r);
+        });
+        std::thread::sleep(std::time::Duration::from_millis(100));
+        tx.try_send(9).unwrap();
+        let r = done_rx.recv_timeout(std::time::Duration::from_secs(3));
+        report(matches!(r, Ok(Ok(9))), "F-C08-2", format!("recv under YieldingWait::with_spins(0, 0) after a value was sent: {}", match r { Ok(v) => format!("{:?}", v), Err(_) => "still blocked after 3 s".to_string() }));
+    }
     std::process::exit(if bad > 0 { 1 } else { 0 });
 }
